@@ -68,7 +68,8 @@ def rule_on_curve(ctx: Ctx, rep: Report) -> None:
     m = ctx.func(f"{CV}.mult")
     g = ctx.cfg(m)
     rc = [c for c in own_nodes(m.node) if isinstance(c, ast.Call) and call_name(c) == "require_on_curve"]
-    okm = bool(rc) and {t for t, p in g.facts_at_ast(rc[0]) if p} == {"Q is not None", "Q != ec.G"}
+    fpos = [t for t, p in g.facts_at_ast(rc[0]) if p] if rc else []
+    okm = bool(rc) and len(fpos) == 2 and PT.fact(g.facts_at_ast(rc[0]), "Q is not None") and PT.fact(g.facts_at_ast(rc[0]), "Q != ec.G")
     rep.ob(rule, f"{CV}.mult(Q)", okm, m.where(), "validated unless Q is None or Q == ec.G (the generator needs none)")
     sink = [c for c in own_nodes(m.node) if isinstance(c, ast.Call) and call_name(c) == "_mult_checked"]
     rep.ob(rule, f"{CV}.mult:order", bool(rc) and bool(sink) and rc[0].lineno < sink[0].lineno, m.where(), "validation precedes the multiplication")
